@@ -27,13 +27,14 @@ MODEL = dict(
     bin="fungible",
     trace="Trace_Fungible",
     mc=[
-        _mc("base", depth=3, tdepth=4, every=30, tevery=300),
-        _mc("base", regime="O", depth=3, tdepth=4, every=10, tevery=40),
-        _mc("allowlist", every=40, tevery=8),
-        _mc("blocklist", every=30, tevery=6),
-        _mc("pausable", every=50, tevery=10),
-        _mc("capped", every=20, tevery=4),
-        _mc("capped", regime="O", every=10, tevery=2),
+        # Depth = number of calls in a history (the bound is an enabling condition of Next)
+        _mc("base", depth=4, tdepth=4, every=40, tevery=4),
+        _mc("base", regime="O", depth=4, tdepth=5, every=4, tevery=10),
+        _mc("allowlist", depth=4, tdepth=4, every=60, tevery=6),
+        _mc("blocklist", depth=3, tdepth=4, every=1, tevery=6),
+        _mc("pausable", depth=4, tdepth=4, every=60, tevery=6),
+        _mc("capped", depth=3, tdepth=4, every=1, tevery=6),
+        _mc("capped", regime="O", depth=4, tdepth=5, every=2, tevery=10),
         # vacuity guards: seeded model bugs must be seen by the monitors
         _mc("base", bug="self_transfer"),
         _mc("allowlist", bug="burn_not_listed"),
